@@ -115,3 +115,48 @@ Section UnorderedEquiv.
     - intros H. split; [apply permA_length; exact H|apply permA_counts; exact H].
   Qed.
 End UnorderedEquiv.
+
+(* the grouped assertion when the values' Eq is an equivalence coarser than identity *)
+From IB Require Import Proofs.AssertionsProofs.
+From Coq Require Import ZArith Permutation.
+
+Section GroupedEquiv.
+  Variable V : Type.
+  Variable veqb : V -> V -> bool.
+  Hypothesis veqb_refl : forall x, veqb x x = true.
+  Hypothesis veqb_sym : forall x y, veqb x y = true -> veqb y x = true.
+  Hypothesis veqb_trans : forall x y z, veqb x y = true -> veqb y z = true -> veqb x z = true.
+
+  Definition group_eqA (x y : Z * list V) : Prop :=
+    fst x = fst y /\ PermutationA (fun v w => veqb v w = true) (snd x) (snd y).
+
+  Lemma counts_equal_permA : forall a e,
+      counts_equal veqb a e = true <-> PermutationA (fun v w => veqb v w = true) a e.
+  Proof.
+    intros a e. rewrite (counts_equal_all V veqb veqb_sym veqb_trans). split.
+    - apply (counts_all_permA V veqb veqb_refl veqb_sym veqb_trans).
+    - apply (permA_counts V veqb veqb_sym veqb_trans).
+  Qed.
+
+  Lemma grouped_pairwise_iff_equiv : forall a e,
+      length a = length e -> (grouped_pairwise veqb a e = true <-> Forall2 group_eqA a e).
+  Proof.
+    induction a as [|[ak av] a IH]; intros [|[ek ev] e] Hlen; cbn [length] in Hlen; try discriminate.
+    - split; [constructor|reflexivity].
+    - injection Hlen as Hlen. cbn [grouped_pairwise].
+      rewrite !andb_true_iff, Z.eqb_eq, counts_equal_permA, (IH e Hlen). split.
+      + intros [[Hk Hv] Hr]. constructor; [split; assumption|exact Hr].
+      + intros H. inversion H as [|x y l l' [Hk Hv] Hr]; subst. cbn [fst snd] in *. auto.
+  Qed.
+
+  Lemma grouped_sound_equiv : forall a e,
+      assert_grouped_kv_equal veqb a e = true ->
+      exists e', Permutation e e' /\ Forall2 group_eqA a e'.
+  Proof.
+    intros a e H. unfold assert_grouped_kv_equal in H. apply andb_true_iff in H.
+    destruct H as [Hlen Hp]. apply Nat.eqb_eq in Hlen. apply grouped_pairwise_iff_equiv in Hp; [|exact Hlen].
+    destruct (Permutation_Forall2 (sort_by_key_perm _ a) Hp) as [e' [Hpe HF]].
+    exists e'. split; [|exact HF].
+    eapply Permutation_trans; [apply Permutation_sym, sort_by_key_perm|exact Hpe].
+  Qed.
+End GroupedEquiv.
